@@ -135,7 +135,9 @@ def members(draw, cx, prefix, lo=1, hi=6, depth=0, allow_bits=True, is_union=Fal
 def enumerators(draw, ename):
     n = draw(st.integers(1, 6))
     es = []
-    big = draw(st.integers(0, 11)) == 0
+    mode = draw(st.integers(0, 11))
+    big = mode == 0
+    u32 = mode == 1      # all values non-negative, some in [2^31, 2^32): the underlying type is unsigned int
     for i in range(n):
         c = draw(st.integers(0, 6))
         if c == 6 and es and es[-1][1] is not None:
@@ -143,7 +145,9 @@ def enumerators(draw, ename):
         elif c <= 2 or c == 6:
             v = None
         elif c <= 4:
-            v = draw(st.integers(-1000, 100000))
+            v = draw(st.integers(0 if u32 else -1000, 100000))
+        elif u32:
+            v = _pick(draw, [2 ** 31, 2 ** 32 - 1, draw(st.integers(2 ** 31, 2 ** 32 - 2))])
         else:
             v = draw(st.integers(2 ** 31, 2 ** 40)) if big else draw(st.integers(0, 255))
         es.append([("%s_E%d" % (ename.upper(), i)), v])
